@@ -55,6 +55,9 @@ type Item struct {
 	JoinIfs bool `json:"join_ifs"`
 	// JoinNestedIfs: join_ifs, also for if statements with an init clause or with nested if statements.
 	JoinNestedIfs bool `json:"join_nested_ifs"`
+	// MapRangeInListOrder: translate `range` over a map as a walk over the association list in its own order
+	// (Go's order is unspecified: exact only for order-insensitive loops — state that where you use it).
+	MapRangeInListOrder bool `json:"map_range_in_list_order"`
 }
 
 type Spec struct {
@@ -72,6 +75,9 @@ type Spec struct {
 	// `other` (for an interface with a `Header() *H` method and `Hdr H` fields it carries the header), so
 	// a type assertion or type switch naming a type outside the list is refused.
 	IfaceCases map[string][]string `json:"iface_cases"`
+	// MapFields: struct fields of map type are part of the emitted Records (off by default: Records keep the
+	// shape they had before maps were translatable; local variables and parameters of map type always translate).
+	MapFields bool `json:"map_fields"`
 }
 
 var (
@@ -608,6 +614,7 @@ func main() {
 	}
 	fullImports = spec.FullImports
 	ifaceCases = spec.IfaceCases
+	mapFields = spec.MapFields
 	if gm, err := os.ReadFile(filepath.Join(repo, "go.mod")); err == nil {
 		for _, l := range strings.Split(string(gm), "\n") {
 			if strings.HasPrefix(l, "module ") {
